@@ -15,6 +15,7 @@ import SradModel.Drv.Eon
 import SradModel.Drv.Metric
 import SradModel.Drv.Birth
 import SradModel.Drv.Cmd
+import SradModel.Drv.Loop
 import SradModel.Drv.Wire
 
 open Srad Srad.Drv Srad.BirthDrv Srad.Drv.CmdD
@@ -28,6 +29,7 @@ structure DState where
   eon : EonD := {}
   birth : BWorld := {}
   cmd : CmdSt := {}
+  nodeabs : NodeAbsD := {}
 
 def step (st : DState) (line : String) : DState × String :=
   match words line with
@@ -48,6 +50,9 @@ def step (st : DState) (line : String) : DState × String :=
   | "cmd" :: rest =>
     let (c, o) := stepCmd st.cmd rest
     ({ st with cmd := c }, o)
+  | "nodeabs" :: rest =>
+    let (n, o) := stepNodeAbs st.nodeabs rest
+    ({ st with nodeabs := n }, o)
   | "eon" :: rest =>
     let (e, o) := stepEon st.eon rest
     ({ st with eon := e }, o)
